@@ -3851,3 +3851,35 @@ def grd18_short_reads(P, R, L, rule="GRD-18"):
                     used = True
             R.check(rule, "%s|read-count-checked" % p, used, c.where(), "the number of bytes returned by read() is compared with the expected length (or read_exact is used)", "")
     R.floor(rule, "read_exact / checked read sites outside fs::", n + exact, 4)
+
+
+# ------------------------------------------------------------------------------------------- OWN-10 block cache partitions
+def own10_cache_partitions(P, R, L, rule="OWN-10"):
+    """Every open table gets its own block-cache partition id (read-modify-write of the id counter inside ONE write-lock
+    region) and caches its blocks under (that id, the block's offset): two tables sharing an id serve each other's blocks."""
+    nid = [b for p, b in P.bodies.items() if p.endswith("::new_id") and "LRUCache" in p]
+    if not nid:
+        R.missing_anchor(rule, "LRUCache::new_id")
+    for b in nid:
+        R.analysed(b)
+        locks = [c for c in b.calls() if not b.is_cleanup(c.bb) and c.name in (RW_READ, RW_WRITE)]
+        st = field_stores(b, "last_id_given")
+        ok = len(locks) == 1 and locks[0].name == RW_WRITE and bool(st) and all(b.must_pass(s[0], through_nodes=[locks[0].bb]) for s in st)
+        R.check(rule, b.path + "|id-allocated-in-one-write-region", ok, where(b), "the id counter is incremented and read under a single write lock",
+                "lock acquisitions: %s" % [c.name.rsplit("::", 1)[1] for c in locks])
+    keys = 0
+    for p, b in sorted(P.bodies.items()):
+        for c in b.calls():
+            if b.is_cleanup(c.bb) or c.name != "tables::table::BlockCacheKey::new":
+                continue
+            keys += 1
+            R.analysed(b)
+            ok = any("cache_partition_id" in o.path for o in origins(b, c.args[0])) and \
+                any(o.kind == "call" and (o.name or "").endswith("BlockHandle::get_offset") for o in origins(b, c.args[1]))
+            R.check(rule, p + "|block-cache-key", ok, c.where(), "blocks are cached under (this table's partition id, the block handle's offset)", "")
+    R.floor(rule, "BlockCacheKey::new sites", keys, 2)
+    op = P.body("tables::table::Table::open")
+    if op is not None:
+        R.analysed(op)
+        ids = [c for c in op.calls() if not op.is_cleanup(c.bb) and (c.declared_name or c.name or "").endswith("::new_id")]
+        R.check(rule, op.path + "|fresh-partition-per-table", bool(ids), where(op), "Table::open allocates a fresh partition id", "new_id sites %d" % len(ids))
